@@ -20,6 +20,12 @@ def filter : FilterForm := .requestedSubsetOfNode
 def asyncFilter : FilterForm := .requestedSubsetOfNode
 def fanOutOverTargets : Bool := true
 def asyncFanOutOverTargets : Bool := true
+def maxAttemptsValidated : Bool := true
+def asyncMaxAttemptsValidated : Bool := true
+def namesDistinctAtConstruction : Bool := true
+def asyncNamesDistinctAtConstruction : Bool := true
+def namesDistinctAtAdd : Bool := true
+def asyncNamesDistinctAtAdd : Bool := true
 def deadKinds : List IoKind := [.brokenPipe]
 def asyncDeadKinds : List IoKind := [.notConnected, .brokenPipe]
 def refusalKind : Option IoKind := none
